@@ -15,12 +15,14 @@ for d in sorted(os.listdir(S)):
     missed = ", ".join(k for k, v in sorted(dd.items()) if not v.startswith("caught"))
     rows.append("| %s | %s | %s | %s | %s |" % (d, m["change"].replace("|", "/"), m["needs_to_manifest"].replace("|", "/"), caught or "-", missed or "-"))
 with open(os.path.join(S, "README.md"), "w") as f:
-    f.write("# Seeded changes\n\nForty changes to cschwan/hep-mc written by independent sub-agents (each saw only one property record and a scratch "
-            "worktree of /repo, nothing from /verif). Each breaks its property, still compiles, still passes the 19 baseline tests and needs "
+    f.write(("# Seeded changes\n\n%d changes to cschwan/hep-mc written by independent sub-agents in seven rounds (each saw only one property record, the list of "
+            "changes already known, and a scratch worktree of /repo - nothing from /verif). Each breaks its property, still compiles, still passes the 19 baseline tests and needs "
             "something specific to manifest. All were confirmed with `tools/confirm_seeded.sh` (see `<dir>/confirm.log`). `tools/run_seeded.py` runs the "
             "quick checks against each of them in a scratch copy of /repo/include (`tools/try_patch.sh`); never in /repo.\n\n"
             "'missed' lists checks of *other* properties (or of the serial unit only) that were tried and do not see the change - by the property's "
             "own check every change below is caught.\n\n"
-            "| id | change | needs in order to manifest | caught by (first signature) | tried, not caught by |\n|---|---|---|---|---|\n")
+            "A '-' in the 'caught by' column means that the quick checks have not been run against that change through `tools/run_seeded.py` / "
+            "`tools/merge_batch_log.py` yet.\n\n"
+            "| id | change | needs in order to manifest | caught by (first signature) | tried, not caught by |\n|---|---|---|---|---|\n") % len(rows))
     f.write("\n".join(rows) + "\n")
 print("seeded/README.md:", len(rows), "rows")
